@@ -317,7 +317,9 @@ class Environment:
 
         for event in events_to_unpause:
             self._paused_events.remove(event)
-            event.time += self.now - event.paused_at
+            # Add the remaining time to the current time, in this order
+            # the result cannot be rounded to a time before now.
+            event.time = self.now + (event.time - event.paused_at)
             bisect.insort(self._events, event)
 
     def add_datapoint(self, list_label, sub_label, datapoint):
